@@ -506,4 +506,96 @@ theorem arc_path_covers (a0 α φ : ℝ) (n : ℕ) (hn : 0 < n) (hα0 : 0 < α) 
   obtain ⟨k, hk, l1, l2⟩ := segment_of_angle a0 α φ n hn hα0 h0 h1
   exact ⟨k, hk, arc_segment_covers (a0 + k * α) α φ hα0 hα l1 l2⟩
 
+
+/-! ## round 2: the segment count and the angle normalisation around `cubic_bezier_arc_parameters` -/
+
+/-- `arc_count = max(math.ceil(delta_angle / math.pi * 2.0), segments)`, `segment_angle = delta_angle / arc_count`:
+    at least one segment, every segment spans at most 90 degrees, and the segments add up to the sweep exactly -/
+theorem arc_count_spec (Δ : ℝ) (segs : ℕ) (hΔ : 0 < Δ) :
+    let n := max ⌈Δ / Real.pi * 2⌉₊ segs
+    0 < n ∧ 0 < Δ / n ∧ Δ / n ≤ Real.pi / 2 ∧ (n : ℝ) * (Δ / n) = Δ := by
+  intro n
+  have hpi := Real.pi_pos
+  have hx : 0 < Δ / Real.pi * 2 := by positivity
+  have hc : 0 < ⌈Δ / Real.pi * 2⌉₊ := Nat.ceil_pos.mpr hx
+  have hn : 0 < n := lt_of_lt_of_le hc (le_max_left _ _)
+  have hnr : (0 : ℝ) < n := by exact_mod_cast hn
+  refine ⟨hn, by positivity, ?_, by field_simp⟩
+  have h1 : Δ / Real.pi * 2 ≤ (n : ℝ) := by
+    calc Δ / Real.pi * 2 ≤ (⌈Δ / Real.pi * 2⌉₊ : ℝ) := Nat.le_ceil _
+      _ ≤ (n : ℝ) := by exact_mod_cast le_max_left _ _
+  rw [div_le_iff₀ hnr]
+  have : Δ = Δ / Real.pi * 2 * (Real.pi / 2) := by field_simp
+  nlinarith
+
+/-- the whole arc `[a0, a0 + Δ]` as the code splits it (`n = max(ceil(Δ / 90 deg), segments)` equal segments): every
+    direction of the arc is met by one of the segment curves at a distance in [1, 1.0004], exactly the partition
+    `[a0 + k α, a0 + (k + 1) α]`, `k < n`, `n α = Δ` -/
+theorem arc_whole_covers (a0 Δ φ : ℝ) (segs : ℕ) (hΔ : 0 < Δ) (h0 : a0 ≤ φ) (h1 : φ ≤ a0 + Δ) :
+    let n := max ⌈Δ / Real.pi * 2⌉₊ segs
+    ∃ k : ℕ, k < n ∧ ∃ t : ℝ, 0 ≤ t ∧ t ≤ 1 ∧ ∃ ρ : ℝ, 1 ≤ ρ ∧ ρ ≤ 1 + 4 / 10000 ∧
+      arcXr (Real.tan (Δ / n / 4)) (Real.cos (a0 + k * (Δ / n))) (Real.sin (a0 + k * (Δ / n))) t = ρ * Real.cos φ ∧
+      arcYr (Real.tan (Δ / n / 4)) (Real.cos (a0 + k * (Δ / n))) (Real.sin (a0 + k * (Δ / n))) t = ρ * Real.sin φ := by
+  intro n
+  obtain ⟨hn, hα0, hα, hsum⟩ := arc_count_spec Δ segs hΔ
+  exact arc_path_covers a0 (Δ / n) φ n hn hα0 hα h0 (by rw [hsum]; exact h1)
+
+/-- and no segment curve leaves the sector of the whole arc: every point of segment `k < n` is `ρ (cos ψ, sin ψ)` with
+    `a0 <= ψ <= a0 + Δ`, `1 <= ρ <= 1.0004` (each angle of the arc is covered, nothing outside it: "exactly once" up to
+    the shared end points of neighbouring segments) -/
+theorem arc_whole_in_sector (a0 Δ t : ℝ) (segs k : ℕ) (hΔ : 0 < Δ) (t0 : 0 ≤ t) (t1 : t ≤ 1)
+    (hk : k < max ⌈Δ / Real.pi * 2⌉₊ segs) :
+    let n := max ⌈Δ / Real.pi * 2⌉₊ segs
+    ∃ ψ : ℝ, a0 ≤ ψ ∧ ψ ≤ a0 + Δ ∧ ∃ ρ : ℝ, 1 ≤ ρ ∧ ρ ≤ 1 + 4 / 10000 ∧
+      arcXr (Real.tan (Δ / n / 4)) (Real.cos (a0 + k * (Δ / n))) (Real.sin (a0 + k * (Δ / n))) t = ρ * Real.cos ψ ∧
+      arcYr (Real.tan (Δ / n / 4)) (Real.cos (a0 + k * (Δ / n))) (Real.sin (a0 + k * (Δ / n))) t = ρ * Real.sin ψ := by
+  intro n
+  obtain ⟨hn, hα0, hα, hsum⟩ := arc_count_spec Δ segs hΔ
+  obtain ⟨ψ, p0, p1, ρ, r1, r2, hx, hy⟩ := arc_curve_in_sector (a0 + k * (Δ / n)) (Δ / n) t hα0 hα t0 t1
+  have hkr : (k : ℝ) + 1 ≤ (n : ℝ) := by exact_mod_cast hk
+  have hk0 : (0 : ℝ) ≤ (k : ℝ) := by positivity
+  refine ⟨ψ, ?_, ?_, ρ, r1, r2, hx, hy⟩
+  · nlinarith
+  · have : (k : ℝ) * (Δ / n) + Δ / n ≤ (n : ℝ) * (Δ / n) := by nlinarith
+    linarith
+
+/-- the angle normalisation of `cubic_bezier_from_arc` in degrees: `start' = s % 360` (Python `%`: in [0, 360)),
+    `end' = s + span`, raised by full turns `while start' > end'` -/
+noncomputable def fromArcStart (s : ℝ) : ℝ := s - 360 * ⌊s / 360⌋
+noncomputable def fromArcEnd (s span : ℝ) : ℝ := s + span + 360 * ⌈(fromArcStart s - (s + span)) / 360⌉₊
+
+/-- For the start angles that `bulge_to_arc` (atan2) and the ARC/ELLIPSE converters deliver, `-360 <= s < 360`, and a sweep
+    `0 < span <= 360` (with `span < 360` for negative `s`) the normalised interval has the same start direction and
+    exactly the sweep `span`.  (Outside this range the function is wrong: for `s >= 360` it adds `floor(s/360)` full turns
+    to the sweep, for `s < 0` and `span = 360` it raises ValueError: see reports/C15.md.) -/
+theorem from_arc_normalised (s span : ℝ) (hs0 : -360 ≤ s) (hs1 : s < 360) (hsp0 : 0 < span)
+    (hneg : s < 0 → span < 360) :
+    fromArcStart s = (if s < 0 then s + 360 else s) ∧ fromArcEnd s span - fromArcStart s = span := by
+  by_cases hs : s < 0
+  · have hfl : ⌊s / 360⌋ = -1 := by
+      rw [Int.floor_eq_iff]
+      constructor
+      · push_cast; linarith
+      · push_cast; linarith
+    have hst : fromArcStart s = s + 360 := by simp [fromArcStart, hfl]
+    have hc : ⌈(fromArcStart s - (s + span)) / 360⌉₊ = 1 := by
+      rw [hst, Nat.ceil_eq_iff (by norm_num)]
+      have := hneg hs
+      constructor
+      · push_cast; linarith
+      · push_cast; linarith
+    refine ⟨by simp [hs, hst], ?_⟩
+    unfold fromArcEnd; rw [hc, hst]; push_cast; ring
+  · have hs' : 0 ≤ s := not_lt.mp hs
+    have hfl : ⌊s / 360⌋ = 0 := by
+      rw [Int.floor_eq_iff]
+      constructor
+      · push_cast; positivity
+      · push_cast; linarith
+    have hst : fromArcStart s = s := by simp [fromArcStart, hfl]
+    have hc : ⌈(fromArcStart s - (s + span)) / 360⌉₊ = 0 := by
+      rw [hst, Nat.ceil_eq_zero]; linarith
+    refine ⟨by simp [hs, hst], ?_⟩
+    unfold fromArcEnd; rw [hc, hst]; push_cast; ring
+
 end EzdxfVerif.BBox.Lemmas
